@@ -7,6 +7,12 @@ META = {
         text="Kernel-checked: XA / empty / XL / XD / ZZ / database answer are decided in that order by the class of the address; non-global addresses never reach the database; over the whole generated table no label value derives from a client address or from an unclassifiable expression, label names are the fixed set, values are numeric counts/durations.",
         note="Proof over generated table + model; the provenance analysis (extractor) is trusted and backed by scanning the real exposition for every textual form of distinctive client addresses and ports.",
     ),
+    "C17": dict(
+        engine="E7 metrics",
+        technique="Lean 4 refinement proof: the tunnel-time bookkeeping model (reference counts, period restart on scrape, report on last close) against an independent per-client specification (time accrues exactly while depth>0), by induction over arbitrary op histories with a non-decreasing clock; differential correspondence with the real Prometheus collectors under a stubbed clock",
+        text="Kernel-checked for every history: reported per-key seconds after a scrape = sum over client IPs of the covered time; reported+pending = covered at every point (nothing lost or doubled across scrapes); active iff depth>0 (overlaps counted once); clients that never start contribute zero; per-location sum = per-key sum.",
+        note="Trusted: Lean kernel, hand model validated by the metrics campaign, the hook that stubs the clock. Matching of stops to starts rests on C15/C16.",
+    ),
     "C02": dict(
         engine="E3 tcp",
         technique="Lean 4 theorems on the stream framing model for ALL chunkings over an abstract AEAD (decode∘encode, chunking independence, replay of the first 50 bytes, nonce uniqueness, truncation) and on the relay model (target receives exactly the data after the header, then FIN); differential correspondence with the real handler over loopback sockets",
